@@ -76,8 +76,17 @@ def fill_cov(out, res, cnt, p, cfg):
                         "WFXMLScanner and SGXMLScanner are run on DOCTYPE-free cases only"]
 
 
+def pick(consts, tier):
+    """VERIF_SMOKE=1 selects the small bounds (spec/*.smoke.cfg: a subset of the quick tier's cases, same alphabets and renderings);
+    used for the mutant demonstrations while the machine was heavily loaded."""
+    k = dict(consts[tier])
+    if os.environ.get("VERIF_SMOKE") == "1":
+        k["gen"] = k["gen"].replace(".quick.", ".smoke.").replace(".thorough.", ".smoke.")
+    return k
+
+
 def run(out, tier):
-    k = CONSTS[tier]
+    k = pick(CONSTS, tier)
     C.build_lib("hooks")
     exe = C.build_harness("xmltok_harness")
     res, summ, cnt, p = run_gen(out, "c02", k["gen"], exe)
